@@ -4,6 +4,7 @@
 //!   {"k":"set","f":<field idx>,"val":"<u64 dec>"}  overwrite a field (width bytes, LE; inside an
 //!                                                   encrypted region: decrypt, patch, re-encrypt)
 //!   {"k":"set2","f":i,"val":..,"g":j,"val2":..}     two sibling fields edited together
+//!   {"k":"tok","at":p,"marker":m,"n":k,"then":t}    k marker bytes and one ordinary token over a codec token stream
 //!   {"k":"tag","f":<field idx>,"how":"unknown|reversed|next|zero"}
 //!   {"k":"cut","at":n}                             keep the first n bytes
 //!   {"k":"chunk","seq":s,"op":"swap|dup|del|zero|over","pos":p}   single edit of a chunk sequence
@@ -79,6 +80,17 @@ pub fn apply(seed: &Seed, op: &Value, label: &str) -> Vec<u8> {
             let v2: u64 = gs(op, "val2").parse().unwrap_or_else(|_| tool_error("bad val2"));
             write_field(&mut b, f, v);
             write_field(&mut b, g, v2);
+        }
+        "tok" => {
+            let at = gi(op, "at") as usize;
+            let n = gi(op, "n") as usize;
+            let (mb, then) = (gi(op, "marker") as u8, gi(op, "then") as u8);
+            if at + n < b.len() {
+                for x in &mut b[at..at + n] {
+                    *x = mb;
+                }
+                b[at + n] = then;
+            }
         }
         "tag" => {
             let f = &seed.fields[gi(op, "f") as usize];
